@@ -212,6 +212,20 @@ static void gen_c02_ecdsa(const std::string& tier, std::vector<Work>& W) {
             }
         }, "template " + T[ti].name + " " + c.label});
     }
+    // (2b) a signed legacy input of a transaction whose OTHER inputs carry witnesses (explicit session: script and stack on the command line):
+    //      the input itself has no witness and a non-empty scriptSig, so its signatures are over the legacy digest
+    for (size_t ti : {size_t(0), size_t(1), size_t(10)}) for (auto sh : std::vector<std::array<int, 3>>{{2, 1, 0}, {3, 2, 1}, {3, 2, 2}}) {
+        Ctx c = make_ctx(sh[0], sh[1], sh[2], 123456789, SigVer::BASE);
+        c.tx.vin[c.k].script_sig = bytes{0x51};
+        for (int i = 0; i < sh[0]; i++) if (i != c.k) c.tx.vin[i].witness = {bytes{0x30, 0x01}, bytes(33, 0x02)};
+        c.label += " (other inputs carry witnesses)";
+        W.push_back({[=](Violations& V, Stats2& S) {
+            for (uint8_t ht : {uint8_t(1), uint8_t(3), uint8_t(0x81)}) for (uint32_t fl : {0u, F_STANDARD}) {
+                Inst I = instantiate(T[ti], c, keys, {ht});
+                compare_explicit(c, I.script, I.stack, fl, T[ti].name + " hashtype=" + std::to_string(ht) + " legacy input of a mixed transaction", "mixed-transaction:legacy-input", V, S);
+            }
+        }, "mixed transaction " + T[ti].name + " " + c.label});
+    }
     // (3) encoding classes x all 2^8 subsets of the encoding flags
     std::vector<uint32_t> encbits = {F_DERSIG, F_LOW_S, F_STRICTENC, F_NULLFAIL, F_NULLDUMMY, F_WITNESS_PUBKEYTYPE, F_CONST_SCRIPTCODE, F_DISCOURAGE_UPGRADABLE_PUBKEYTYPE};
     auto subsets = alpha::subsets(encbits);
